@@ -51,9 +51,8 @@ def canon_events(evs):
 class Prop:
     pid = 'C18'
     props_file = 'Props/C18.v'
-    required_theorems = ['subscriber_fold_eq_rib_outside_known', 'last_event_is_current_outside_known',
-                         'peer_down_only_after_up', 'subscriber_fold_eq_rib_refuted',
-                         'subscriber_fold_eq_rib_legacy_refuted']
+    required_theorems = ['subscriber_fold_eq_rib', 'last_event_is_current', 'peer_down_only_after_up',
+                         'subscriber_fold_eq_rib_legacy_refuted', 'subscriber_fold_eq_rib_legacy_limit_refuted']
     correspondence_name = ('Model/Subscribe.v run_sched/finish vs daemon/src/table_manager.rs TableManager::{subscribe, insert_route, '
                            'remove_route, soft_reset_in, unregister_peer, peer_up, peer_down} on real threads under a deterministic '
                            'scheduler (harness/daemon/table_manager_hx.rs verif_sub_cases), fold by bmp.rs apply_snapshot / track_peer_*')
